@@ -223,6 +223,11 @@ def stream(r, n_random, thorough=False):
         h = rb(r, 20); k33 = b'\x02' + rb(r, 32)
         S += [('samehash', P2PKH(h)), ('samehash', P2SH(h)), ('samehash', b'\x00\x14' + h), ('samehash', P2PKH(h)), ('samehash', b'\x6a\x14' + h), ('samehash', P2SH(h)),
               ('samehash', b'\x21' + k33 + b'\xac'), ('samehash', b'\x51\x21' + k33 + b'\x51\xae'), ('samehash', b'\x21' + k33 + b'\xac')]
+    # name-operation prefixes as Namecoin writes them (OP_1 <name hash> OP_2DROP / OP_2 <name> <rand> <value> OP_2DROP OP_2DROP / OP_3 <name> <value> OP_2DROP OP_DROP) in front of
+    # every template: not one of the five token sequences on any fork coin, a bare witness-version look-alike on bitcoin
+    for tag, tpl in [('p2pkh', P2PKH(rb(r, 20))), ('p2sh', P2SH(rb(r, 20))), ('p2pk', b'\x21\x02' + rb(r, 32) + b'\xac'), ('opret', b'\x6a\x04data')]:
+        S += [('nameop:' + tag, b'\x51' + push(rb(r, 20)) + b'\x6d' + tpl), ('nameop:' + tag, b'\x52' + push(b'd/name') + push(rb(r, 8)) + push(b'{}') + b'\x6d\x6d' + tpl),
+              ('nameop:' + tag, b'\x53' + push(b'd/name') + push(b'{"ip":"1.2.3.4"}') + b'\x6d\x75' + tpl), ('nameop:' + tag, b'\x51\x61' + tpl), ('nameop:' + tag, b'\x51\x75' + tpl)]
     # push forms in every template slot, zero-length and huge pushes, truncated at every position (incl. inside the length field)
     slots = {'p2pkh': (b'\x76\xa9', b'\x88\xac'), 'p2pk': (b'', b'\xac'), 'p2sh': (b'\xa9', b'\x87'), 'opret': (b'\x6a', b''), 'ms23': (b'\x52' + key() + key(), b'\x53\xae')}
     for name, (pre, post) in slots.items():
